@@ -85,7 +85,12 @@ def vectors(th):
     # ---- stack + arithmetic/comparison/bitwise on constants incl. 2^256-1 (wrap-around), result returned
     pushes = [X(-1, 0), X(-1, 1), X(-1, 2), X(-1, 255), X(-1, -1)]
     V.append(dict(name="alu", alpha=pushes + [X(o) for o in ALU2 + ALU1] + [X("POP"), X("DUP1"), X("DUP2"), X("SWAP1")],
-                  maxlen=4 if th else 3, suffix=RET_TOP, envs=[env()]))
+                  maxlen=3, suffix=RET_TOP, envs=[env()]))
+    if th:   # four instructions over a thinned alphabet (one representative per family of instructions)
+        V.append(dict(name="alu4", alpha=[X(-1, 0), X(-1, 1), X(-1, 255), X(-1, -1)] +
+                      [X(o) for o in ("ADD", "SUB", "MUL", "DIV", "SMOD", "LT", "SLT", "EQ", "AND", "XOR", "BYTE", "SHL", "SAR",
+                                      "SIGNEXTEND", "EXP", "ISZERO", "NOT")] + [X("DUP1"), X("SWAP1")],
+                      maxlen=4, suffix=RET_TOP, envs=[env()]))
     V.append(dict(name="alu3", alpha=[X(-1, 0), X(-1, 3), X(-1, 200)] + [X(o) for o in ALU2 + ALU1 + ["ADDMOD", "MULMOD"]] +
                   [X("DUP2"), X("SWAP2")], maxlen=3 if th else 2, prefix=[X(-1, 7), X(-1, 5), X(-1, 3)], suffix=RET_TOP,
                   envs=[env()]))
@@ -99,9 +104,9 @@ def vectors(th):
     V.append(dict(name="mem", alpha=mem, maxlen=3 if th else 2, suffix=RET_MEM, envs=[env(cd=2), env(cd=3)]))
     # ---- control flow: labels, jumps into PUSH data, beyond the end, truncated PUSH
     n = 4 if th else 3
-    jmp = [J(k, i) for k in ("j", "ji", "jd") for i in range(1, n + 3)] + \
-          [X("JUMPDEST"), X("PC"), X(-1, 0), X(-1, 1), X(-1, 91), X("SSTORE", 1, 1), X("SSTORE", 2, 1), X("STOP"),
-           X("INVALID"), RAW(97, 91), X("JUMP"), X("JUMPI")]
+    jmp = [J(k, i) for k in ("j", "ji") for i in range(1, n + 3)] + [J("jd", i) for i in range(1, 4)] + \
+          [X("JUMPDEST"), X("PC"), X(-1, 1), X(-1, 91), X("SSTORE", 1, 1), X("SSTORE", 2, 1), X("STOP"), X("INVALID"), X("JUMP")] + \
+          ([] if th else [X(-1, 0), RAW(97, 91), X("JUMPI")])
     V.append(dict(name="jump", alpha=jmp, maxlen=n, suffix=[X("SSTORE", 3, 1)], envs=[env()]))
     # ---- frames: the four call kinds, value, identity precompile, revert / failure of the caller afterwards
     fr = [CALLS(k, B, 0, 32, 32) for k in ("CALL", "CALLCODE", "DELEGATECALL", "STATICCALL")] + \
@@ -109,7 +114,9 @@ def vectors(th):
           CALLS("CALL", C, 2), CALLS("CALL", 0x77, 0), CALLS("CALL", 0x77, 1),
           X("SSTORE", 0), X("SSTORE", 2, 5), X("MSTORE", 0, 17), X("RETURNDATACOPY", 64, 0, 32), X("RETURNDATACOPY", 0, 1, 32),
           X("POP"), X("REVERT", 0, 0), X("INVALID"), X("SELFDESTRUCT", B), X("LOG0", 0, 0), X("BALANCE", B), X("SELFBALANCE")]
-    V.append(dict(name="frames", alpha=fr, maxlen=3 if th else 2, suffix=OBS_CALLS, envs=frame_envs(th) + [env(b=6, v=5, pre=0)]))
+    V.append(dict(name="frames", alpha=fr, maxlen=2, suffix=OBS_CALLS, envs=frame_envs(th) + [env(b=6, v=5, pre=0)]))
+    if th:   # three statements, half of the environments
+        V.append(dict(name="frames3", alpha=fr, maxlen=3, suffix=OBS_CALLS, envs=frame_envs(False)[::2] + [env(b=6, v=5, pre=0)]))
     # ---- the enumerated program runs INSIDE a static call of itself (prefix), the outer frame reports the flag
     static_prefix = [X("CALLDATASIZE"), J("ji", 6), X("STATICCALL", ALLGAS, A, 0, 1, 0, 32), X("SSTORE", 0),
                      X("RETURN", 0, 32), X("JUMPDEST")]
@@ -123,14 +130,16 @@ def vectors(th):
     idn = [X("MSTORE", 0, 17), X("MSTORE", 0, 34), X("MSTORE8", 1, 5), CALLS("CALL", 4, 0, 32, 0), CALLS("CALL", 4, 0, 32, 32, 0, 16),
            CALLS("STATICCALL", 4, 0, 32, 32), CALLS("DELEGATECALL", 4, 0, 33, 3), CALLS("CALLCODE", 4, 1, 7, 40),
            X("RETURNDATACOPY", 32, 0, 32), X("RETURNDATACOPY", 0, 0, 32), X("RETURNDATACOPY", 0, 31, 2)]
-    V.append(dict(name="identity", alpha=idn if th else idn[:2] + idn[3:10], maxlen=5 if th else 4, suffix=OBS_CALLS, envs=[env(pre=1)]))
+    V.append(dict(name="identity", alpha=idn[:10] if th else idn[:2] + idn[3:10], maxlen=5 if th else 4, suffix=OBS_CALLS, envs=[env(pre=1)]))
     # ---- create: nested CREATE with value, call of the created contract, failing / reverting init code, and the
     #      program itself as init code of a top-level kvm.Create
     cr = PUTINIT + PUTINIT_REV[:1] + [X("CREATE", 0, 16, 16), X("CREATE", 1, 16, 16), X("CREATE", 20, 16, 16), X("CREATE", 0, 0, 0),
                                      X("CREATE", 0, 16, 5), X("SSTORE", 6), X("DUP1"), CALLTOP, X("EXTCODESIZE"), X("BALANCE"),
                                      X("REVERT", 0, 0), X("RETURNDATASIZE"), X("RETURN", 30, 2), X("SELFDESTRUCT", B)]
-    V.append(dict(name="create", alpha=cr, maxlen=4 if th else 3, suffix=[X("STOP")],
+    V.append(dict(name="create", alpha=cr, maxlen=3, suffix=[X("STOP")],
                   envs=[env(pre=1), env(pre=0), env(mode=1, v=3), env(b=13, pre=1)]))
+    if th:
+        V.append(dict(name="create4", alpha=cr, maxlen=4, suffix=[X("STOP")], envs=[env(pre=1), env(mode=1, v=3)]))
     # ---- environment instructions, both instruction sets (CHAINID only in v2; 0x45 undefined in both)
     envops = ["ADDRESS", "ORIGIN", "CALLER", "CALLVALUE", "GASPRICE", "COINBASE", "TIMESTAMP", "NUMBER", "GASLIMIT", "UNDEF45",
               "CHAINID", "SELFBALANCE", "CODESIZE"]
@@ -141,7 +150,7 @@ def vectors(th):
                       envs=[env(b=1, pre=1, v=5), env(mode=1, v=2)]))
     # ---- random longer programs over the union of the frame alphabets (TLC simulation)
     V.append(dict(name="walks", alpha=fr + idn[:3] + cr[:5] + [X("SSTORE", 6), X("DUP1"), CALLTOP, X("MLOAD", 32), X("SLOAD", 0)],
-                  maxlen=9, suffix=OBS_CALLS, envs=frame_envs(False), sim=(3000 if th else 300, 10)))
+                  maxlen=9, suffix=OBS_CALLS, envs=frame_envs(False), sim=(600 if th else 50, 10)))     # walks per TLC worker
     return V
 
 
@@ -200,9 +209,10 @@ def run(c):
                 totals[k] = totals.get(k, 0) + v
     # ---------------------------------------------------------------- enumerated / simulated programs
     hdr = {}
+    pending = []
     only = [x for x in os.environ.get("KVM_ONLY", "").split(",") if x]      # development aid: restrict the vectors
     for v in vectors(th):
-        if only and v["name"] not in only and not v["name"].startswith("env-"):
+        if only and v["name"].rstrip("34") not in only and not v["name"].startswith("env-"):
             continue
         dump = os.path.join(c.scratch, "kvm-%s.dump" % v["name"])
         sim = v.get("sim")
@@ -226,10 +236,17 @@ def run(c):
                     if i > 400:
                         break
             hdr[gal] = hp
-        g = c.gotest("kvm", "TestReplay", env=dict(KVM_DUMP=dump, KVM_GAL=1 if gal else 0), timeout=2400 if th else 540,
-                     tag="replay " + v["name"])
+        if th:       # thorough: replay and delete each dump at once (they are large)
+            g = c.gotest("kvm", "TestReplay", env=dict(KVM_DUMP=dump, KVM_GAL=1 if gal else 0), timeout=2400, tag="replay " + v["name"])
+            absorb(g)
+            os.remove(dump)
+        else:        # quick: one driver run over all dumps
+            pending.append(dump + ("" if gal else ":v1"))
+    if pending:
+        g = c.gotest("kvm", "TestReplay", env=dict(KVM_DUMP=",".join(pending)), timeout=900, tag="replay MC_KVM dumps")
         absorb(g)
-        os.remove(dump)
+        for p in pending:
+            os.remove(p.split(":")[0])
     # ---------------------------------------------------------------- directed limit executions
     for cases in ([list(range(1, 13))] if not only or "limits" in only else []):
         dump = os.path.join(c.scratch, "kvm-steps-%d.dump" % cases[0])
@@ -254,11 +271,40 @@ def run(c):
             raise Infra("opcode tour did not report " + k)
         totals[k] = g["extra"][k]
     if not only or "random" in only:
-        g = c.gotest("kvm", "TestRandom", env=dict(KVM_RANDOM=600000 if th else 20000), timeout=2400 if th else 540,
+        g = c.gotest("kvm", "TestRandom", env=dict(KVM_RANDOM=300000 if th else 20000), timeout=2400 if th else 540,
                      tag="random byte strings")
         absorb(g)
         for k in ("random_opcodes_executed_v1", "random_opcodes_executed_v2"):
             totals[k] = g.get("extra", {}).get(k, 0)
+    # ---------------------------------------------------------------- trace validation (code -> specification)
+    if not only or "trace" in only:
+        nfiles, nprog = (8, 400) if th else (2, 150)
+        g = c.gotest("kvm", "TestRecord", env=dict(KVM_TRACES=nfiles, KVM_PROGRAMS=nprog), timeout=900, tag="record traces")
+        absorb(g)
+        c.traces -= int(g.get("behaviours", g.get("evaluations", 0)))     # counted below, when TLC has accepted them
+        for k in range(nfiles):
+            path = os.path.join(c.scratch, "kvm-trace-%d.ndjson" % k)
+            r = c.tlc("kvm", "KVMTrace.cfg", module="KVMTrace", files={"trace.ndjson": path}, workers=1, timeout=1800,
+                      deadlock=True, tag="KVMTrace %d" % k, jvm=["-Xmx3g"], extra=["-checkpoint", "0"])
+            text = open(r.out, errors="replace").read()
+            if "REJECTED" in text or r.violated:
+                i = text.find('<< "MISMATCH"')
+                diag = " ".join(text[i:i + 6000].split())[:3000] if i >= 0 else c.tlc_tail(r)
+                c.report("kvm:trace:step-unexplained" if not r.violated else "kvm:trace:limit-exceeded",
+                         "an execution recorded from the real machine (seed %d, trace %d) is not explained by KVMFrames!Step: %s"
+                         % (c.seed, k, diag[:600]), dict(seed=c.seed, trace=k, programs=nprog, diag=diag))
+                continue
+            if not r.ok:
+                raise Infra("TLC failed on KVMTrace %d: %s\n%s" % (k, r.error, c.tlc_tail(r)))
+            mm = __import__("re").search(r'<<"VALIDATED", (\d+), (\d+), (\d+)>>', text)
+            if not mm:
+                raise Infra("KVMTrace %d: no VALIDATED line" % k)
+            totals["trace_steps_validated"] = totals.get("trace_steps_validated", 0) + int(mm.group(1))
+            totals["trace_outcomes_validated"] = totals.get("trace_outcomes_validated", 0) + int(mm.group(2))
+            totals["trace_lines"] = totals.get("trace_lines", 0) + int(mm.group(3))
+            c.traces += nprog
+        if totals.get("trace_steps_validated", 0) < 0.3 * totals.get("trace_lines", 1) and not c.violations:
+            raise Infra("trace validation is vacuous: %s" % totals)
     c.extra.update(totals)
     c.extra.pop("mismatch_counts", None)
     skipped = totals.get("skipped_real_out_of_gas", 0)
